@@ -23,7 +23,9 @@ type Mutant struct {
 	Edits  []Edit `json:"edits"`
 	// Benign marks a behaviour-preserving variant: the check must stay silent on it.
 	Benign bool `json:"benign"`
-	// Patch names a unified diff (relative to /verif) applied instead of Edits: the sub-agent changes kept in /verif/seeded.
+	// Patch names a unified diff (relative to /verif): the sub-agent changes kept in /verif/seeded and /verif/benign. Edits given
+	// together with a Patch are applied on top of the patched files (a behaviour-preserving refactoring plus a breaking edit:
+	// the normalisations that keep the refactoring silent must not hide the break).
 	Patch string `json:"patch"`
 }
 
@@ -116,8 +118,10 @@ func patchOverlay(repo, verif, patch string) (map[string]string, error) {
 	return ov, nil
 }
 
-func buildOverlay(repo string, m Mutant) (map[string]string, error) {
-	ov := map[string]string{}
+func buildOverlay(repo string, m Mutant, ov map[string]string) (map[string]string, error) {
+	if ov == nil {
+		ov = map[string]string{}
+	}
 	for _, e := range m.Edits {
 		cur, ok := ov[e.File]
 		if !ok {
@@ -204,9 +208,13 @@ func runSelfTest(self, repo, verif, prop string) ([]MutantResult, bool) {
 			var ov map[string]string
 			var err error
 			if m.Patch != "" {
+				// a patch, optionally followed by edits on top of the patched files (a refactoring plus a breaking change)
 				ov, err = patchOverlay(repo, verif, m.Patch)
+				if err == nil && len(m.Edits) > 0 {
+					ov, err = buildOverlay(repo, m, ov)
+				}
 			} else {
-				ov, err = buildOverlay(repo, m)
+				ov, err = buildOverlay(repo, m, nil)
 			}
 			if err != nil {
 				r.Detail = err.Error()
